@@ -94,6 +94,11 @@ func initTSTable(fileSystem fs.FileSystem, rootPath string, p common.Position,
 			loadedParts = append(loadedParts, p)
 			continue
 		}
+		if filepath.Ext(ee[i].Name()) == ".tmp" {
+			// Leftover of a WriteAtomic (snapshot manifest) interrupted by a crash; nothing refers to it.
+			needToDelete = append(needToDelete, ee[i].Name())
+			continue
+		}
 		if filepath.Ext(ee[i].Name()) != snapshotSuffix {
 			continue
 		}
